@@ -1,7 +1,9 @@
 //! Engine `vectored` (C16, byte level): `Emf::format` into a scripted `io::Write`.
 //!
 //! Case line: `<namespaces> <script> | <GenEntry encoding>`; script = responses `o<k>` (accept up to k
-//! bytes), `i` (Interrupted), `e` (hard error), `z` (Ok(0)); after the script ends the writer accepts
+//! bytes), `i` (Interrupted), `e`/`ew`/`et`/`eo`/`eu`/`ep` (hard error of kind BrokenPipe / WouldBlock / TimedOut /
+//! Other / UnexpectedEof / PermissionDenied — the kind must be surfaced unchanged and must not change what the
+//! formatter does; the model sees every hard error as `e`), `z` (Ok(0)); after the script ends the writer accepts
 //! everything offered.
 //!
 //! Implementation-vs-property oracle (independent of Lean): the bytes accepted by the writer are
@@ -24,9 +26,19 @@ use verif_harness::*;
 enum Resp {
     Ok(usize),
     Interrupted,
-    Err,
+    /// hard error; the index selects the `io::ErrorKind` (`ERR_KINDS`): the kind must not matter
+    Err(u8),
     Zero,
 }
+
+const ERR_KINDS: [(io::ErrorKind, &str); 6] = [
+    (io::ErrorKind::BrokenPipe, "e"),
+    (io::ErrorKind::WouldBlock, "ew"),
+    (io::ErrorKind::TimedOut, "et"),
+    (io::ErrorKind::Other, "eo"),
+    (io::ErrorKind::UnexpectedEof, "eu"),
+    (io::ErrorKind::PermissionDenied, "ep"),
+];
 
 struct Call {
     offered: Vec<usize>,
@@ -59,7 +71,7 @@ impl Write for ScriptedWriter {
             }
             Resp::Zero => (0, Ok(0)),
             Resp::Interrupted => (0, Err(io::Error::new(io::ErrorKind::Interrupted, "scripted"))),
-            Resp::Err => (0, Err(io::Error::new(io::ErrorKind::BrokenPipe, "scripted"))),
+            Resp::Err(k) => (0, Err(io::Error::new(ERR_KINDS[k as usize % ERR_KINDS.len()].0, "scripted"))),
         };
         let mut left = n;
         for b in bufs {
@@ -86,7 +98,7 @@ fn enc_script(s: &[Resp]) -> String {
         .map(|r| match r {
             Resp::Ok(k) => format!("o{k}"),
             Resp::Interrupted => "i".into(),
-            Resp::Err => "e".into(),
+            Resp::Err(k) => ERR_KINDS[*k as usize % ERR_KINDS.len()].1.into(),
             Resp::Zero => "z".into(),
         })
         .collect::<Vec<_>>()
@@ -100,7 +112,7 @@ fn dec_script(s: &str) -> Option<Vec<Resp>> {
     s.split(',')
         .map(|r| match r {
             "i" => Some(Resp::Interrupted),
-            "e" => Some(Resp::Err),
+            "e" | "ew" | "et" | "eo" | "eu" | "ep" => ERR_KINDS.iter().position(|(_, t)| *t == r).map(|k| Resp::Err(k as u8)),
             "z" => Some(Resp::Zero),
             _ => r.strip_prefix('o')?.parse().ok().map(Resp::Ok),
         })
@@ -174,7 +186,7 @@ fn gen_script(rng: &mut Rng, total: usize) -> Vec<Resp> {
     (0..n)
         .map(|_| match rng.below(10) {
             0 => Resp::Interrupted,
-            1 => Resp::Err,
+            1 => Resp::Err(rng.below(ERR_KINDS.len() as u64) as u8),
             2 => Resp::Zero,
             3 => Resp::Ok(usize::MAX),
             4 => Resp::Ok(1),
@@ -272,15 +284,18 @@ fn oracle(reference: &[u8], o: &Outcome) -> Option<String> {
         return Some(format!("{} returned although the writer accepted every byte", o.result));
     }
     // error kind: the first non-retried failing response decides
-    let failing = o.w.calls.iter().find(|c| matches!(c.resp, Resp::Err | Resp::Zero));
+    let failing = o.w.calls.iter().find(|c| matches!(c.resp, Resp::Err(_) | Resp::Zero));
     match failing {
         Some(call) => {
-            let want = if call.resp == Resp::Zero { "io:WriteZero" } else { "io:BrokenPipe" };
+            let want = match call.resp {
+                Resp::Err(k) => format!("io:{:?}", ERR_KINDS[k as usize % ERR_KINDS.len()].0),
+                _ => "io:WriteZero".to_string(),
+            };
             if o.result != want {
                 return Some(format!("writer failed with {:?} but format returned {}", call.resp, o.result));
             }
             // nothing may be written after the hard error
-            let idx = o.w.calls.iter().position(|c| matches!(c.resp, Resp::Err | Resp::Zero)).unwrap();
+            let idx = o.w.calls.iter().position(|c| matches!(c.resp, Resp::Err(_) | Resp::Zero)).unwrap();
             if idx + 1 != o.w.calls.len() {
                 return Some("formatter kept writing after a hard error".into());
             }
@@ -321,7 +336,7 @@ fn resp_tokens(o: &Outcome) -> Vec<String> {
         .map(|c| match c.resp {
             Resp::Ok(_) => format!("o{}", c.accepted),
             Resp::Interrupted => "i".into(),
-            Resp::Err => "e".into(),
+            Resp::Err(_) => "e".into(),
             Resp::Zero => "o0".into(),
         })
         .collect()
@@ -384,7 +399,7 @@ fn per_line(o: &Outcome) -> Vec<(String, String)> {
                     }
                 }
                 Resp::Interrupted => script.push("i".into()),
-                Resp::Err => {
+                Resp::Err(_) => {
                     script.push("e".into());
                     outcome = "ioerr";
                     break;
@@ -436,7 +451,7 @@ fn main() {
             for k in 1..=first_len {
                 let tail = match k % 4 {
                     0 => vec![],
-                    1 => vec![Resp::Err],
+                    1 => vec![Resp::Err((k % ERR_KINDS.len()) as u8)],
                     2 => vec![Resp::Zero],
                     _ => vec![Resp::Interrupted, Resp::Ok(1), Resp::Interrupted],
                 };
@@ -468,7 +483,7 @@ fn main() {
             let script = (0..n)
                 .map(|_| match rng.below(12) {
                     0 => Resp::Interrupted,
-                    1 => Resp::Err,
+                    1 => Resp::Err(rng.below(ERR_KINDS.len() as u64) as u8),
                     2 => Resp::Zero,
                     3 | 4 => Resp::Ok(usize::MAX),
                     5 => Resp::Ok(1),
@@ -512,7 +527,7 @@ fn main() {
                     Resp::Ok(_) if call.accepted < call.offered.iter().sum::<usize>() => "resp:partial",
                     Resp::Ok(_) => "resp:full",
                     Resp::Interrupted => "resp:interrupted",
-                    Resp::Err => "resp:error",
+                    Resp::Err(_) => "resp:error",
                     Resp::Zero => "resp:zero",
                 });
             }
